@@ -454,6 +454,37 @@ func TestC12(t *testing.T) {
 		}
 		st.Note("exhaustive: the patterns of <= 4 symbols that hold a backslash or a wildcard x subjects of <= 3 symbols over %q x 4 modes", c12SubjAlpha2)
 	}
+	// letters that mean something to a regular-expression engine when they
+	// stand behind a backslash (\Q \E quoting, \d \b \A classes and anchors,
+	// \1): escaped they are the letters, behind an escaped backslash too
+	{
+		palpha := []string{`\`, "E", "Q", "d", "b", "1", "*"}
+		subjects := wordsUpTo([]string{`\`, "E", "d", "1", "b"}, 3)
+		pi := 0
+		for n := 1; n <= 4; n++ {
+			words(palpha, n, func(p string) {
+				pi++
+				if pi%nsh != sh || !strings.Contains(p, `\`) {
+					return
+				}
+				var nt int64
+				for _, s := range subjects {
+					for _, m := range c12Modes {
+						c := c12Case{Patterns: []string{p}, Mode: m, Subject: s}
+						v, _, err := checkC12(c)
+						if err != nil {
+							fail(t, "C12", "match", c, "%v", err)
+						}
+						if v == c12Checked && s != "" {
+							nt++
+						}
+					}
+				}
+				st.EvalN(int64(len(subjects)*len(c12Modes)), nt)
+			})
+		}
+		st.Note("exhaustive: the patterns of <= 4 symbols over %q that hold a backslash x subjects of <= 3 symbols over {\\ E d 1 b} x 4 modes", palpha)
+	}
 	// subjects around buffer-sized lengths with a multi-byte character at the edge
 	if sh == 2%nsh {
 		var k int64
@@ -770,7 +801,7 @@ func TestC12(t *testing.T) {
 					rapid.SampledFrom([]string{"a", "b", "c", "é", "x", "0", "9", "Z", ".", "*", "?", "(", "|", "$", "+", "{", " ", "\n", "!", "^"}),
 					rapid.SampledFrom([]string{"a-c", "0-9", "A-Z", "a-é", "x-z", "!-/", "b-b", " -~"}),
 					rapid.SampledFrom([]string{"[:alpha:]", "[:digit:]", "[:alnum:]", "[:upper:]", "[:lower:]", "[:space:]", "[:blank:]", "[:punct:]", "[:xdigit:]", "[:cntrl:]", "[:print:]", "[:graph:]"}),
-					rapid.SampledFrom([]string{`\]`, `\\`, `\-`, `\[`, `\!`, `\^`, `\a`, `\.`}),
+					rapid.SampledFrom([]string{`\]`, `\\`, `\-`, `\[`, `\!`, `\^`, `\a`, `\.`, `\E`, `\Q`, `\d`}),
 					rapid.SampledFrom([]string{"-", "[", "c-a", "[:foo:]", "[.a.]", "[=a=]"}),
 					rapid.SampledFrom([]string{"[:", ":]", ":", `\:`, "[:^alpha:]", "[:alpha", "[:a", `[\:alpha:]`, "[:*", "[:?", `[:\-`, "[:ALPHA:]", "[: alpha:]", "[:alpha :]", "[::]"}),
 				).Draw(t, "item"))
